@@ -19,7 +19,7 @@ def run(tier, seed):
     if not ck.proof['driver_ok']:
         ck.notes['driver'] = 'unavailable: model-side runs skipped, searching with the implementation-side oracles only'
     import soupsieve as sv
-    n = 60 if tier == 'quick' else 1200
+    n = 90 if tier == 'quick' else 1200
     scs = []
     for _ in range(n):
         tg = gen_trees.TGen(rnd)
@@ -51,6 +51,18 @@ def run(tier, seed):
         pools['attrs'] = sorted(set(pools['attrs']) | {'type'})
         ag = gen_selectors.AGen(rnd, feats=('core', 'case', 'ns'), prefixes=[], **pools)      # prefixes *| and | (no map): no effect on case rules
         sels = [ag.selector(1) for _ in range(6)]
+        # every element / attribute name of the tree once in upper case (HTML: must still match; XML: must not, unless equal)
+        els_ = tops[0][0].find_all(True)
+        for _ in range(3):
+            e_ = rnd.choice(els_)
+            if e_.name.isascii() and e_.name.replace('-', '').isalnum():
+                a_ = [[{'ids': [], 'classes': [], 'attrs': [], 'pseudos': [], 'type': (None, rnd.choice([e_.name.upper(), e_.name.title()]))}]]
+                sels.append((gen_selectors.show_list(a_), a_))
+            ks = [k for k in e_.attrs if isinstance(k, str) and k.isascii() and k.replace('-', '').isalnum()]
+            if ks:
+                k_ = rnd.choice(ks)
+                a_ = [[{'ids': [], 'classes': [], 'attrs': [(None, rnd.choice([k_.upper(), k_.title()]), None, '', None)], 'pseudos': []}]]
+                sels.append((gen_selectors.show_list(a_), a_))
         # the type attribute's value, spelled in another case, with and without a namespace prefix and the i / s flags
         typed = [e for e in tops[0][0].find_all(True) if isinstance(e.attrs.get('type'), str) and e.attrs['type']]
         for _ in range(3):
